@@ -349,6 +349,11 @@ def manyatoms(seed, count, tag='MANYATOMS'):
             rows.insert(rng.choice([0, 0, len(rows) // 2, len(rows)]), full)
         if k % 2:
             rows.insert(rng.randrange(len(rows)), rows[rng.randrange(len(rows))])
+        if k % 4 == 1:      # many atoms with several objects each: copies of many rows at shuffled positions
+            for _ in range(rng.randint(n // 3, n)):
+                rows.insert(rng.randrange(len(rows) + 1), rows[rng.randrange(len(rows))])
+        elif k % 4 == 3:    # ... or mirrored: object i and object N-1-i share a row
+            rows = rows + rows[::-1]
         if k % 3 == 0:
             rows.insert(rng.randrange(len(rows)), 0)
         yield case(tag, rows, m, SCHEMES[k % len(SCHEMES)], rng)
@@ -446,15 +451,80 @@ def deep(tier, seed=0):
                    'properties': [f'p{j:04d}' for j in range(n)], 'rows': [m for _, m in r], 'deep': True}
 
 
-def biglat(tier, sizes=(15, 16)):
+def biglat(tier, sizes=(15, 16), quick_sizes=()):
     """Lattices with tens of thousands of concepts (thorough tier only): Boolean lattices of the
     contranominal scales 15 and 16 (32 768 / 65 536 concepts) - thresholds inside the
     enumeration/traversal code (table sizes, heap sizes) are only reached here."""
-    if tier != 'thorough':
-        return
-    for n in sizes:
+    for n in (sizes if tier == 'thorough' else quick_sizes):
         full = (1 << n) - 1
         yield case(f'BIGLAT:contranominal{n}', [full & ~(1 << i) for i in range(n)], n, 'rev')
+
+
+_MIAN_CHOWLA = [0, 1, 3, 7, 12, 20, 30, 44, 65, 80, 96, 122, 147, 181]    # a Sidon set: all differences distinct
+
+
+def geom(seed, count, tag='GEOM'):
+    """Incidence structures with a high fan-in: (a) circulant tables ``i I (i + s) mod n`` for s in a
+    Sidon set of size k (any two objects share at most one property and vice versa: a flat lattice of
+    2n + 2 concepts in which every atom has k upper covers and every co-atom k lower covers, k up to 12);
+    (b) uniform hypergraphs: one object per t-subset of m properties (all of them or a random part):
+    C(m, t) atoms under few co-atoms, a ranked lattice with binomially many members per level."""
+    import itertools
+    rng = random.Random(f'{seed}/{tag}')
+    for k in range(count):
+        if k % 2 == 0:
+            size = 3 + (k // 2) % 10                      # 3 .. 12
+            S = _MIAN_CHOWLA[:size]
+            n = 2 * S[-1] + 1 + rng.randint(0, 9)
+            rows = [sum(1 << ((i + s) % n) for s in S) for i in range(n)]
+            if (k // 2) % 3 == 1:
+                rng.shuffle(rows)
+            yield case(f'{tag}:sidon{size}', rows, n, SCHEMES[k % len(SCHEMES)], rng)
+        else:
+            m = rng.randint(6, 13)
+            t = rng.randint(2, min(4, m - 2))
+            subsets = [sum(1 << j for j in c) for c in itertools.combinations(range(m), t)]
+            if len(subsets) > 300:
+                subsets = rng.sample(subsets, rng.randint(150, 300))
+            elif rng.random() < .5:
+                rng.shuffle(subsets)
+            if (k // 2) % 3 == 2:                         # complements: every object lacks t properties
+                subsets = [((1 << m) - 1) & ~x for x in subsets]
+            c = case(f'{tag}:uniform{m}choose{t}', subsets, m, SCHEMES[k % len(SCHEMES)], rng)
+            if (k // 2) % 2:
+                cols = [sum(((subsets[i] >> j) & 1) << i for i in range(len(subsets))) for j in range(m)]
+                c = case(f'{tag}:uniform{m}choose{t}T', cols, len(subsets), SCHEMES[k % len(SCHEMES)], rng)
+            yield c
+
+
+def stacked(seed, count, tag='STACKED'):
+    """Vertical sums: a sequence of blocks, every object of a block has all properties of the blocks
+    before it plus its own pattern inside the block; blocks are chains (ordinal scales of 20-70 steps)
+    or small random tables.  The lattice is the blocks' lattices glued on top of each other: small
+    (a few hundred concepts at most) but *deep*, with branching below, between and above long chains."""
+    rng = random.Random(f'{seed}/{tag}')
+    for k in range(count):
+        blocks = []
+        shape = ['chain', 'rnd'] if k % 3 == 0 else ['rnd', 'chain'] if k % 3 == 1 else ['chain', 'rnd', 'chain', 'rnd']
+        for kind in shape:
+            if kind == 'chain':
+                L = rng.randint(20, 70) if len(shape) == 2 else rng.randint(12, 35)
+                blocks.append(([(1 << i) - 1 for i in range(L + 1)], L))
+            else:
+                bn, bm = rng.randint(2, 6), rng.randint(2, 5)
+                blocks.append((rnd_rows(rng, bn, bm, rng.choice([.3, .5, .7])), bm))
+        rows, m = [], 0
+        for brows, bm in blocks:
+            below = (1 << m) - 1
+            rows += [below | (r << m) for r in brows]
+            m += bm
+        if k % 4 == 2:
+            rng.shuffle(rows)
+        c = case(tag, rows, m, SCHEMES[k % len(SCHEMES)], rng)
+        if k % 2:
+            cols = [sum(((rows[i] >> j) & 1) << i for i in range(len(rows))) for j in range(m)]
+            c = case(tag + 'T', cols, len(rows), SCHEMES[k % len(SCHEMES)], rng)
+        yield c
 
 
 def near(cases_, seed, per=3, tag='NEAR'):
@@ -499,6 +569,9 @@ def ctx_stream(tier, seed, *, scale=1.0, with_wide=True, max_rnd=None, with_huge
         if with_wide:
             yield from manyatoms(seed, int(6 * scale))
         yield from repeated(seed, int(8 * scale), lo=40, hi=150)     # Lindig is ~ |G|^2 per concept
+        if with_wide:
+            yield from geom(seed, int(20 * scale))
+            yield from stacked(seed, int(16 * scale))
         yield from (c for c in longaxis(seed, 2) if with_wide or len(c['properties']) < 64)
         if with_huge:
             yield from huge(seed, 4)
@@ -517,6 +590,9 @@ def ctx_stream(tier, seed, *, scale=1.0, with_wide=True, max_rnd=None, with_huge
         if with_wide:
             yield from manyatoms(seed, int(80 * scale))
         yield from repeated(seed, int(150 * scale), lo=40, hi=220)
+        if with_wide:
+            yield from geom(seed, int(120 * scale))
+            yield from stacked(seed, int(200 * scale))
         yield from (c for c in longaxis(seed, max(2, int(24 * scale))) if with_wide or len(c['properties']) < 64)
         if with_huge:
             yield from huge(seed, max(2, int(16 * scale)))
